@@ -71,6 +71,22 @@ def template(kind, t):
     raise ValueError(t)
 
 
+def big_frame(kind, n):
+    """n rows on a 6-wide grid inside [0, 7] x [0, 5]; rows 4 and 17 missing, row 9 empty"""
+    els, els2 = [], []
+    k2 = 'line' if kind == 'point' else 'point'
+    for i in range(n):
+        x, y = i % 6, (i // 6) % 5
+        if i in (4, 17):
+            els.append(None)
+        elif i == 9:
+            els.append(U.empty_el(kind))
+        else:
+            els.append(U.shape(kind, x, y, x + 1, y + 1))
+        els2.append(None if i == 7 else U.shape(k2, y, x, y + 2, x + 1))
+    return els, k2, els2
+
+
 def second_column(kind):
     """the other geometry column: points (so that sjoin can run on it) unless g holds points"""
     if kind == 'point':
@@ -167,6 +183,19 @@ def gen_specs(rep, tier):
                     keys = rng.sample(KEYS, 3 if quick else 5)
                     act = 'h' if steps[-1][0] in ('from_concat', 'mapid') else rng.choice(['g', 'g', 'h'])
                     spec(kind, els, k2, els2, act, steps, keys)
+    # B2. parquet datasets of 11, 12, 13, 25 partitions (two-digit partition labels in the
+    #     stored bounds), written by to_parquet and by pack_partitions_to_parquet
+    many = [('point', 11), ('point', 12), ('line', 13), ('point', 25)] if quick else \
+        [(k, n) for k in G.KINDS for n in (11, 12, 13, 25)]
+    for kind, nparts in many:
+        n = nparts + 1
+        els, k2, els2 = big_frame(kind, n)
+        cuts = list(range(nparts)) + [n]          # nparts partitions, the last holds two rows
+        keys = [KEYS[0], KEYS[1], KEYS[7]] + ([] if quick else [KEYS[2], KEYS[6]])
+        spec(kind, els, k2, els2, 'g', [['from_delayed', cuts], ['parquet', None, None]], keys)
+        if kind == 'point' or not quick:
+            spec(kind, els, k2, els2, 'g',
+                 [['from_delayed', [0, n // 2, n]], ['pack_to_parquet', nparts]], keys)
     # C. random frames, random splits, random provenance
     for _ in range(40 if quick else 800):
         kind = rng.choice(G.KINDS)
@@ -263,6 +292,16 @@ def apply_steps(df, steps, tmpdirs):
             X = read_parquet_dask(path, **kw)
             if st[1] is None and expect is not None:
                 # which column is active after a plain read is C11 / C20's business
+                expect = expect.set_geometry(U.active_name(X))
+        elif op == 'pack_to_parquet':
+            d = tempfile.mkdtemp(prefix='sp_c06_')
+            tmpdirs.append(d)
+            try:
+                X = X.pack_partitions_to_parquet(os.path.join(d, 'p.parq'), npartitions=st[1])
+            except Exception as e:   # C10 / C09 are about this call
+                raise Unclaimed('pack_partitions_to_parquet raises ' + type(e).__name__)
+            ordered, index_kept = False, False
+            if expect is not None:
                 expect = expect.set_geometry(U.active_name(X))
         elif op == 'cxp':
             xs, ys = U.key_slices(tuple(st[1]))
